@@ -54,3 +54,15 @@ Example C03_example :
   E [NPlain 0; NIf false 1; NOther 9; NElseIf true 2; NOther 9; NElse 3; NPlain 4; NElse 5; NIf true 6; NElse 7; NIf false 8]
   = [0; 2; 4; 6].
 Proof. reflexivity. Qed.
+
+(* the walk that also records the text it renders (the one the correspondence stream compares, text after a chain
+   included) renders exactly the elements of the walk the theorems above are about *)
+Theorem C03_walk_with_text_agrees : forall fuel l, map snd (filter fst (evaluate_t fuel l)) = evaluate fuel l.
+Proof. exact evaluate_t_elements. Qed.
+Print Assumptions C03_walk_with_text_agrees.
+(* text after the last member of a chain is rendered whichever branch was taken; text between members is not *)
+Example C03_text_after_chain :
+  ET [NIf true 1; NOther 2; NElse 3; NOther 4; NPlain 5] = [(true, 1); (false, 4); (true, 5)] /\
+  ET [NIf false 1; NOther 2; NElse 3; NOther 4; NPlain 5] = [(true, 3); (false, 4); (true, 5)] /\
+  ET [NIf true 1; NOther 4; NPlain 5] = [(true, 1); (false, 4); (true, 5)].
+Proof. vm_compute. repeat split. Qed.
